@@ -94,6 +94,10 @@ typedef uint64_t elem_t;      /* opaque element token for templates that only mo
 		__CPROVER_ensures((gh_f_##V < n && gh_f_##V < __CPROVER_old(v->size)) ==> v->data[gh_f_##V < CAP ? gh_f_##V : 0] == __CPROVER_old(v->data[gh_f_##V < CAP ? gh_f_##V : 0]));
 #endif
 
+/* find(vector, value) as a POSITION (size == not found): the search loop itself, for bounded (unwinding) units only */
+#define VEC_SHIMS_FIND(V, T)                                                                                     \
+	static inline size_t V##_find(V *v, T x) { size_t k_ = 0; while (k_ < v->size && !(v->data[k_] == x)) k_++; return k_; }
+
 /* whole-vector copy assignment: bounded runs execute the element loop (contract runs bring their own witness-form stub) */
 #ifdef SHIM_IMPL
 #define VEC_SHIMS_ASSIGN(V, T)                                                                                   \
